@@ -8,7 +8,8 @@ DECIDES = ('(a) lossless store: each ITP field slice (bus interval counter = DW0
            '8.7) is stored into a signal at least as wide as the slice, and the protocol layer forwards the counter '
            'through signals of at least 14 bits; (b) the fields and update_received = 1 are written in the arm '
            'guarded by header valid & type == ISOCHRONOUS_TIMESTAMP, which also accepts the header (ready); '
-           'update_received is cleared in the other arm. ')
+           'update_received is cleared in the other arm. '
+           'The ITP handler is instantiated without a Reset/EnableInserter (it accepts combinationally and captures in registers). ')
 NOT_DECIDED = 'nothing value-level remains for the receiver itself; the header demultiplexer routing is outside this property.'
 ITP_TYPE = 0b01100     # USB 3.2 table 8-2
 
